@@ -387,7 +387,9 @@ theorem readDir_np (m : FMap) (p : Str) : readDir m p ≠ .panic := by
 theorem ensureHasParent_np (m : FMap) (p : Str) : ensureHasParent m p ≠ .panic := by
   unfold ensureHasParent
   split
-  · split <;> simp [fail]
+  · split
+    · split <;> simp [fail]
+    · simp [fail]
   · simp [fail]
 
 theorem createDir_np (m : FMap) (p : Str) : (createDir m p).1 ≠ .panic := by
